@@ -553,8 +553,9 @@ Fixpoint trace_prog (ops : list op) (acc : list res) : prog (list res) :=
   end.
 
 (* One run: start node (ROOT-FIRST DOM path, as the harness prints it), the operations, what
-   xmlquery's navigator answered and what the idr navigator answered. *)
+   xmlquery's navigator (as it is, or repaired) answered and what the idr navigator answered. *)
 Record nrun := mkRun {
+  r_fx : bool;            (* the reference side ran on the repaired navigator (harness fixNav) *)
   r_start : list nat;
   r_ops : list op;
   r_dom : list res;
@@ -576,7 +577,7 @@ Definition check_run (doc : dnode) (t : tree) (r : nrun) : bool :=
   let start := rev (r_start r) in
   let p := trace_prog (r_ops r) [] in
   valid_start doc start
-  && match run_dom false doc p (d_init start) with
+  && match run_dom (r_fx r) doc p (d_init start) with
      | Some out => list_eqb res_eqb out (r_dom r)
      | None => false
      end
